@@ -304,6 +304,13 @@ def c_plan(plan):
     return C.c_list([one(tuple(a)) for a in plan])
 
 
+def c_exch(x):
+    """one recorded exchange as Corr.C18.ex / exr"""
+    if isinstance(x.reply, (bytes, bytearray)):
+        return '(ex %d %d %d "%s" "%s")' % (x.netfn, x.cmd, x.lun, x.data.hex(), bytes(x.reply).hex())
+    return '(exr %d %d %d "%s" %s)' % (x.netfn, x.cmd, x.lun, x.data.hex(), C.c_err(C.exc_class(x.reply)))
+
+
 def run_upload(binary, bs, plan, timeout, interval, retry=None, faults=None, float_clock=False):
     """Drive the real Ipmi.upload_binary against the reference device.
     faults: {exchange index: 'timeout' | bytes} injected in front of the device (correspondence only)."""
@@ -519,14 +526,13 @@ def run(ctx):
         if dflt:     # default arguments: timeout=2 s, interval=0.1 s; the model counts milliseconds
             sleeps = [int(round(x * 1000)) for x in sleeps]
         outcome = '(Err %s)' % C.c_err(C.exc_class(out)) if isinstance(out, Exception) else '(Ok tt)'
-        add('chk_upload %s %s %d %d %s %s %s %s %s'
-            % (C.c_nat(bs), C.c_hex(binary), timeout, interval, C.c_Z(3 if retry is None else retry),
-               C.c_list([F.c_reply(x) for x in log]), C.c_list([F.c_request(x) for x in log]),
-               C.c_list([C.c_N(x) for x in sleeps]), outcome),
-            (kind, len(binary), bs, len(log)))
-        if not faults:
-            add('chk_device %s %s' % (c_plan(plan), C.c_list(['(%s, %s)' % (F.c_request(x), F.c_reply(x)) for x in log])),
-                (kind + '-device', len(binary), bs))
+        tr = C.c_list([c_exch(x) for x in log])
+        args = '%s %s %d %d %s' % (C.c_nat(bs), C.c_hex(binary), timeout, interval, C.c_Z(3 if retry is None else retry))
+        tail = '%s %s %s' % (tr, C.c_list([C.c_N(x) for x in sleeps]), outcome)
+        if faults:
+            add('chk_upload %s %s' % (args, tail), (kind, len(binary), bs, len(log)))
+        else:
+            add('chk_upload_dev %s %s %s' % (args, c_plan(plan), tail), (kind, len(binary), bs, len(log)))
             oracle('upload', {'binary': binary.hex(), 'bs': bs, 'plan': [list(a) for a in plan],
                               'timeout': None if dflt else timeout, 'interval': None if dflt else interval})
         D.add((kind, binary, bs, tuple(plan), timeout, interval, retry, repr(faults)), True, kind)
@@ -585,8 +591,13 @@ def run(ctx):
         upload_case(rand_bytes(rng, ln), 22, plan, retry=rng.choice([None, None, 1, 2, 0, -1]), faults=faults,
                     timeout=rng.choice([2000, 300, 0]), kind='upload-faults')
 
-    failing, errors = C.coq_cases('C18', 'Lib.Prog Model.HpmImage Model.HpmUpload Model.HpmDevice Corr.C18', terms,
-                                  shard=60)
+    # spread the long cases over the shards (fixed permutation), map the verdicts back
+    import random
+    perm = list(range(len(terms)))
+    random.Random(18).shuffle(perm)
+    failing, errors = C.coq_cases('C18', 'Lib.Prog Model.HpmImage Model.HpmUpload Model.HpmDevice Corr.C18',
+                                  [terms[i] for i in perm], shard=max(40, len(terms) // 48 + 1))
+    failing = sorted(perm[i] for i in failing)
     res.mismatches = [{'case': meta[i], 'term': terms[i][:1500]} for i in failing[:50]]
     res.corr_errors = errors
     res.evaluations += len(terms)
